@@ -12,6 +12,12 @@ M == JsonDeserialize(IOEnv.M_FILE)            \* record: rule -> (record: host -
 Rules == DOMAIN M
 Hosts == DOMAIN M[CHOOSE r \in Rules : TRUE]
 
+\* Names: hosts as clients write them, each with the spellings under which the proxy asks its rule lists about it (as written,
+\* lower case, the ASCII form that is dialled - http_proxy.go matchHost); every spelling is a member of Hosts
+Sp == JsonDeserialize(IOEnv.S_FILE)           \* record: name -> sequence of hosts
+Names == DOMAIN Sp
+Spell(n) == {Sp[n][i] : i \in 1..Len(Sp[n])}
+
 Item == [r : Rules, x : BOOLEAN]              \* x = excluding rule ('-' prefix)
 Lists == IF Sample = 0 THEN UNION {[1..k -> Item] : k \in 1..MaxLen}
          ELSE UNION {[1..k -> Item] : k \in 1..(MaxLen - 1)} \cup RandomSubset(Sample, [1..MaxLen -> Item])
@@ -21,6 +27,8 @@ Exc(l) == {l[i].r : i \in {j \in 1..Len(l) : l[j].x}}
 Valid(l) == Inc(l) # {}                       \* NewRegexpMatcher: at least one include rule
 Match(l, h) == (\E r \in Inc(l) : M[r][h]) /\ ~(\E r \in Exc(l) : M[r][h])
 Inverse(l, h) == ~Match(l, h)
+\* "the union of includes minus the excludes" is a set of hosts: a host is in it whatever spelling of it a rule was written for
+MatchName(l, n) == (\E r \in Inc(l) : \E h \in Spell(n) : M[r][h]) /\ ~(\E r \in Exc(l) : \E h \in Spell(n) : M[r][h])
 
 VARIABLES list
 Init == list \in Lists /\ Valid(list)
@@ -36,5 +44,7 @@ Monotone ==
      LET l2 == Append(list, it) IN
        IF it.x THEN Match(l2, h) => Match(list, h) ELSE Match(list, h) => Match(l2, h)
 InverseIsNegation == \A h \in Hosts : Inverse(list, h) = ~Match(list, h)
-Emit == PrintT(ToJson([list |-> list, match |-> [h \in Hosts |-> Match(list, h)]]))
+\* an excluding rule that matches one spelling of a host keeps the host out, whatever an including rule makes of another spelling
+ExcludeWinsAcrossSpellings == \A n \in Names : (\E r \in Exc(list) : \E h \in Spell(n) : M[r][h]) => ~MatchName(list, n)
+Emit == PrintT(ToJson([list |-> list, match |-> [h \in Hosts |-> Match(list, h)], matchName |-> [n \in Names |-> MatchName(list, n)]]))
 ==============================================================================
